@@ -1,30 +1,3 @@
-//! Component-level checks: the code under test is driven directly through its public API
-//! and compared with independent reference models / RFC transcriptions.
-
-mod c16_reassembler;
-
-use vcore::Property;
-
 fn main() {
-    let registry: Vec<Property> = vec![c16_property()];
-    vcore::main_with(registry)
-}
-
-fn c16_property() -> Property {
-    let mut subs = vec![];
-    subs.extend(c16_reassembler::subs());
-    Property {
-        id: "C16",
-        rule: "op sequences over Reassembler / IntervalSet / ack::Ranges / packet::number::Map / SlidingWindow, \
-               generated around slot (4096/16384/32768/65536-byte) and window (128) boundaries, compared after every \
-               op with plain reference models (interval list + cursors, BTreeSet, BTreeMap). Non-trivial: reassembler \
-               sequence contains a write that overlaps unconsumed data across a slot boundary and a later read of it; \
-               set sequences contain an op that merges >=2 intervals or splits one. Distinct = distinct op sequences.",
-        assumptions: &[
-            "reference models (interval list, BTreeSet/BTreeMap) are the trusted base",
-            "overlapping writes carry identical bytes (PRF of the offset), as QUIC requires; which copy is kept is not asserted",
-        ],
-        subs,
-        shards: 0,
-    }
+    vcore::main_with(comp::registry())
 }
